@@ -50,7 +50,7 @@ def op_str(op):
 def expected_probe(e, v):
     """the report of a read item of region expression e that denotes value v (Wire.v: probe)"""
     k = e[0]
-    if k in ('own', 'mir', 'vecr', 'str', 'strof', 'cdc'): return v
+    if k in ('own', 'mir', 'vecr', 'str', 'strof', 'cdc', 'huf'): return v
     if k in ('col', 'con'): return expected_probe(e[1], v)
     if k in ('sl', 'cols'):
         ps = [expected_probe(e[1], x) for x in v]
@@ -68,6 +68,8 @@ def wire_equiv(a, b, ieee):
     if isinstance(a, tuple) and isinstance(b, tuple):
         return a[0] == b[0] and wire_equiv(a[1], b[1], ieee)
     return a is None and b is None
+
+def coded(e): return contains(e, 'cdc') or contains(e, 'huf')
 
 def uses_ieee(e):
     return contains(e, 'col') and 'f64' in repr(e)
@@ -88,7 +90,7 @@ def ref_oracle(e, ops, obs, clauses=(), model_obs=None):
         g = obs[t]; k = op[0]
         if g and g[0] == 'CRASH': return f'op {t}: harness crashed'
         if k == 'push':
-            if g == ['P'] and model_obs is not None and contains(e, 'cdc') and t < len(model_obs) and model_obs[t] == ['P']:
+            if g == ['P'] and model_obs is not None and coded(e) and t < len(model_obs) and model_obs[t] == ['P']:
                 # a refusal the proven model predicts (the dictionary cannot represent the input): legitimate, history ends
                 for c in clauses:
                     f = c(t, ('refused',) + tuple(op[1:]), g, ref, scratch)
@@ -165,11 +167,11 @@ def run_regions(ctx, res, cases, oracle, mode, known_ok=True):
             e = EXPR[name]
             if any(g and g[0] in ('ILL', 'UNSUP', 'bad-history', 'unknown-entry') or (g and g[0].startswith('bad-')) for g in io):
                 raise RuntimeError(f'generator/harness bug: {name} {[op_str(o) for o in ops]} -> {io}')
-            f = oracle(e, ops, io, mo) if contains(e, 'cdc') else oracle(e, ops, io)
+            f = oracle(e, ops, io, mo) if coded(e) else oracle(e, ops, io)
             if f:
                 nfail += 1
                 known = None
-                if known_ok and is_known_bad(e) and (oracle(e, ops, mo, mo) if contains(e, 'cdc') else oracle(e, ops, mo)):
+                if known_ok and is_known_bad(e) and (oracle(e, ops, mo, mo) if coded(e) else oracle(e, ops, mo)):
                     known = known_class(e, ctx.prop)
                 res.failures.append({'kind': 'oracle', 'entry': name, 'rust_type': catalogue.rust_type(e), 'profile': prof,
                                      'history': [op_str(o) for o in ops], 'what': f,
@@ -294,7 +296,7 @@ def c02(ctx):
             for _ in range(ctx.rng.choice([4, 10, 25] if not ctx.thorough else [10, 40, 150])):
                 r = ctx.rng.random()
                 if r < 0.1 and c['reserve_items'] and catalogue.ref_ok(e): ops.append(('resitems', 0, [hg.value() for _ in range(ctx.rng.randrange(4))]))
-                elif r < 0.2: ops.append(('resregs', 0, [1]))
+                elif r < 0.2 and c['reserve_regions']: ops.append(('resregs', 0, [1]))
                 else: ops.append(hg.push(0))
                 ops.append(('probe', 0))
             cases.append((name, ops)); note_case(res, name, ops)
@@ -386,7 +388,7 @@ def c10(ctx):
                 r = ctx.rng.random()
                 if r < 0.2 and c['reserve_items'] and catalogue.ref_ok(e):
                     ops.append(('resitems', 0, [hg.value() for _ in range(ctx.rng.randrange(5))]))
-                elif r < 0.4: ops.append(('resregs', 0, ctx.rng.choice([[2], [2, 2], []])))
+                elif r < 0.4 and c['reserve_regions']: ops.append(('resregs', 0, ctx.rng.choice([[2], [2, 2], []])))
                 else:
                     p = hg.push(0); ops.append(p); ops.append(('push', 1, p[2], p[3], 'twin'))
                 if ctx.rng.random() < 0.3: ops += [('probe', 0)]
@@ -405,7 +407,7 @@ def c10(ctx):
             cases.append((name, ops)); note_case(res, name, ops)
     # a coded region merged from trained sources legitimately stores (and indexes) differently from a default one
     run_regions(ctx, res, cases, lambda e, ops, obs, mo=None: ref_oracle(
-        e, ops, obs, [paired_clause(0, 1)] + ([] if contains(e, 'cdc') else [paired_clause(0, 3)]), mo), 'full')
+        e, ops, obs, [paired_clause(0, 1)] + ([] if coded(e) else [paired_clause(0, 3)]), mo), 'full')
     return res
 
 # ------------------------------------------------------------------ C11
@@ -655,14 +657,14 @@ def c20(ctx):
                 f = (it + j) % nfm if ctx.rng.random() < 0.7 else ctx.rng.randrange(nfm)
                 v = hg.value(repeat=0.4)
                 ops += [('push', 0, f, v), ('push', 1, 0, v, 'twin')]
-                if ctx.rng.random() < 0.2:
+                if ctx.rng.random() < 0.2 and hg.caps['heap']:
                     ops += [('heap', 0), ('heap', 1)]
             # region-backed read item as the input form
             if ctx.rng.random() < 0.5:
                 j = ctx.rng.randrange(m)
                 ops += [('pushitem', 2, 0, j, False), ('pushitem', 3, 1, j, True, 'twin')]
                 ops += [('probe', 2), ('probe', 3)]
-            ops += [('heap', 0), ('heap', 1), ('probe', 0), ('probe', 1)]
+            ops += ([('heap', 0), ('heap', 1)] if hg.caps['heap'] else []) + [('probe', 0), ('probe', 1)]
             cases.append((name, ops)); note_case(res, name, ops)
     def heap_pair(t, op, g, ref, sc):
         if op[0] == 'heap':
@@ -1024,7 +1026,7 @@ def simple_payload(e, v, sizes):
         # columns share one set of size slots per column
         nonlocal slots
         saved = list(slots); slots = iter(saved); r = go(e, vs); slots = iter(saved); return r
-    if contains(e, 'col') or contains(e, 'cdc'): return None   # deduplicating / compressing regions store less
+    if contains(e, 'col') or contains(e, 'cdc') or contains(e, 'huf'): return None   # deduplicating / compressing regions store less
     try: return go(e, v)
     except StopIteration: return None
 
@@ -1040,7 +1042,7 @@ def c18(ctx):
     cases = []
     n = 30 if not ctx.thorough else 400
     sizes = {k: ([] if v == '-' else [int(x, 16) for x in v.split(',')]) for k, v in lib.column_sizes().items()}
-    for name, e in ENTRIES:
+    for name, e in pick_entries(lambda nm, e: caps(e)['heap']):
         for _ in range(n):
             hg = HistGen(ctx, name, e); ops = [('heap', 0)]
             for _ in range(ctx.rng.choice([3, 6, 12, 25])):
@@ -1083,7 +1085,7 @@ def c18(ctx):
     return res
 
 # ================================================================== C17 allocation discipline
-VEC_BACKED = lambda nm, e: not (contains(e, 'col') or contains(e, 'con') or contains(e, 'cols') or contains(e, 'cdc')) and 'iopt' not in repr(e) and 'ilist' not in repr(e)
+VEC_BACKED = lambda nm, e: not (contains(e, 'col') or contains(e, 'con') or contains(e, 'cols') or coded(e)) and 'iopt' not in repr(e) and 'ilist' not in repr(e)
 
 def c17(ctx):
     res = Result()
@@ -1112,7 +1114,7 @@ def c17(ctx):
     import math
     K = 8 if not ctx.thorough else 14
     for name, e in ENTRIES:
-        if is_known_bad(e) or contains(e, 'cdc'): continue   # the logarithmic bound is stated for non-coded regions
+        if is_known_bad(e) or coded(e): continue   # the logarithmic bound is stated for non-coded regions
         for k in range(6, K + 1, 2):
             hg = HistGen(ctx, name, e); f = ref_form(e)
             hg.vg.big = False
@@ -1185,7 +1187,7 @@ def vcmp(e, a, b):
     """ordering of owned values as Rust derives it: returns -1, 0, 1"""
     sgn = lambda x, y: (x > y) - (x < y)
     k = e[0]
-    if k in ('own', 'str', 'strof', 'cdc'): return sgn(list(a), list(b))
+    if k in ('own', 'str', 'strof', 'cdc', 'huf'): return sgn(list(a), list(b))
     if k in ('mir', 'vecr'): return 0 if e[1] == 'unit' else sgn(a, b)
     if k in ('col', 'con'): return vcmp(e[1], a, b)
     if k in ('sl', 'cols'):
@@ -1375,6 +1377,123 @@ def c07(ctx):
     run_regions(ctx, res, cases, oracle, 'full')
     return res
 
-PROPS = {'C01': c01, 'C02': c02, 'C03': c03, 'C04': c04, 'C05': c05, 'C07': c07, 'C08': c08, 'C09': c09, 'C10': c10,
-         'C11': c11, 'C12': c12, 'C13': c13, 'C14': c14, 'C15': c15, 'C16': c16, 'C17': c17, 'C18': c18, 'C19': c19,
-         'C20': c20}
+
+# ================================================================== C06 Huffman container
+def huffman_cost(counts):
+    """minimum total bits of a prefix code for the counts (sum of internal node weights); 1 symbol: 1 bit each"""
+    import heapq
+    ws = [c for c in counts.values() if c > 0]
+    if len(ws) == 1: return ws[0]
+    heapq.heapify(ws); cost = 0
+    while len(ws) > 1:
+        a = heapq.heappop(ws); b = heapq.heappop(ws); cost += a + b; heapq.heappush(ws, a + b)
+    return cost
+
+def c06(ctx):
+    res = Result()
+    res.rule = ('HuffmanContainer<u8> / <u16>: frequency profiles (1 symbol; 2-6 equiprobable symbols; Fibonacci counts forcing '
+                'code lengths up to 15 (quick) / 22 (thorough) bits; 300 equiprobable u16 symbols; random counts), training '
+                'regions, merge_regions over 1-2 sources (shared symbols with different counts), then: every symbol pushed '
+                'alone (measures its code length), empty items, random items of 0..12 symbols so that every start / end '
+                'bit offset and items spanning 0, 1, 2+ whole bytes occur, an uncovered symbol (must panic), second and third '
+                'generations, clear and raw mode. Oracle: every read equals the pushed symbols; bit ranges are contiguous '
+                'and (hi - lo) = sum of the symbols\' code lengths; lengths >= 1, Kraft sum <= 1, and sum(count * length) '
+                'equals the optimal prefix-code cost of the merged statistics computed independently; refusals only for '
+                'uncovered symbols')
+    cases = []
+    rng = ctx.rng
+    def fib(n):
+        a, b, out = 1, 1, []
+        for _ in range(n): out.append(a); a, b = b, a + b
+        return out
+    profiles = []
+    profiles.append({7: 3})
+    for k in (2, 3, 4, 5, 6): profiles.append({i * 3: 2 for i in range(k)})
+    profiles.append({i: c for i, c in enumerate([4, 6, 6, 2], 1)})
+    profiles.append({i: c for i, c in enumerate(fib(10))})
+    profiles.append({i: c for i, c in enumerate(fib(16 if not ctx.thorough else 22))})
+    for _ in range(6 if not ctx.thorough else 60):
+        k = rng.choice([2, 3, 5, 9, 17, 40])
+        profiles.append({rng.randrange(256): rng.choice([1, 1, 2, 3, 7, 20, 100]) for _ in range(k)})
+    def train_ops(slot, counts):
+        syms = [s for s, c in counts.items() for _ in range(c)]
+        rng.shuffle(syms); ops = []
+        i = 0
+        while i < len(syms):
+            n = rng.choice([1, 3, 10, 50, 400]); ops.append(('push', slot, rng.randrange(4), syms[i:i + n])); i += n
+        return ops
+    def use_ops(slot, alphabet, uncovered):
+        ops = []
+        for s_ in alphabet: ops.append(('push', slot, 0, [s_]))
+        for _ in range(20 if not ctx.thorough else 60):
+            n = rng.choice([0, 0, 1, 2, 3, 5, 8, 12])
+            ops.append(('push', slot, rng.randrange(4), [rng.choice(alphabet) for _ in range(n)]))
+            if rng.random() < 0.15: ops.append(('probe', slot))
+        ops.append(('probe', slot))
+        return ops
+    for name, maxsym in (('huf_u8', 255), ('huf_u16', 65535)):
+        for counts in profiles + ([{i * 7 + 1: 1 for i in range(300)}] if name == 'huf_u16' else []):
+            alphabet = sorted(counts)
+            ops = train_ops(0, counts)
+            two = rng.random() < 0.5 and len(alphabet) > 1
+            if two:
+                c2 = {s_: rng.choice([1, 5, 30]) for s_ in rng.sample(alphabet, max(1, len(alphabet) // 2))}
+                ops += train_ops(1, c2); ops.append(('merge', 2, [0, 1]))
+            else:
+                ops.append(('merge', 2, [0]))
+            ops += use_ops(2, alphabet, None)
+            # second generation from what was pushed into slot 2; third from both
+            ops.append(('merge', 3, [2])); ops += use_ops(3, alphabet, None)
+            if rng.random() < 0.5: ops += [('merge', 0, [3, 2])] + use_ops(0, alphabet, None)
+            # an uncovered symbol must be refused
+            unc = next(x for x in range(maxsym, 0, -1) if x not in counts)
+            ops2 = list(ops) + [('push', 3, 0, [alphabet[0], unc])]
+            cases.append((name, ops)); note_case(res, name, ops)
+            cases.append((name, ops2))
+            # clear: raw mode again
+            ops3 = ops[:len(ops) // 2] + [('clear', 2), ('push', 2, 0, [unc, unc]), ('push', 2, 0, []), ('probe', 2)]
+            cases.append((name, ops3))
+    def clause(t, op, g, ref, sc):
+        k = op[0]
+        st = sc.setdefault('st', {i: {'cnt': {}, 'enc': None, 'lens': {}, 'bits': 0, 'used': {}} for i in range(4)})
+        if k == 'refused':
+            d = st[op[1]]
+            if d['enc'] is not None and all(x in d['enc'] for x in op[3]):
+                return f'op {t}: a push of covered symbols {op[3]} was refused'
+            return None
+        if k == 'push':
+            d = st[op[1]]; v = op[3]
+            for x in v: d['cnt'][x] = d['cnt'].get(x, 0) + 1
+            if d['enc'] is not None and g and g[0].startswith('i='):
+                lo, hi = gen.parse(g[0][2:])
+                if any(x not in d['enc'] for x in v): return f'op {t}: an uncovered symbol in {v} was stored instead of refused'
+                if lo != d['bits']: return f'op {t}: the item starts at bit {lo}, the previous one ended at {d["bits"]}'
+                d['bits'] = hi
+                if len(v) == 1 and v[0] not in d['lens']:
+                    d['lens'][v[0]] = hi - lo
+                    if hi - lo < 1: return f'op {t}: symbol {v[0]} has a {hi - lo}-bit code'
+                if all(x in d['lens'] for x in v) and hi - lo != sum(d['lens'][x] for x in v):
+                    return f'op {t}: item {v} occupies {hi - lo} bits, its code lengths sum to {sum(d["lens"][x] for x in v)}'
+                if len(d['lens']) == len(d['enc']) and not d.get('checked'):
+                    d['checked'] = True
+                    cost = sum(d['enc'][x] * d['lens'][x] for x in d['enc'])
+                    best = huffman_cost(d['enc'])
+                    kraft = sum(2.0 ** -d['lens'][x] for x in d['enc'])
+                    if cost != best: return f'op {t}: code lengths {d["lens"]} cost {cost} bits on the merged statistics {d["enc"]}; the optimum is {best}'
+                    if kraft > 1.0 + 1e-9: return f'op {t}: code lengths {d["lens"]} violate the Kraft inequality'
+        elif k == 'clear': st[op[1]] = {'cnt': {}, 'enc': None, 'lens': {}, 'bits': 0, 'used': {}}
+        elif k == 'merge':
+            tot = {}
+            for j in op[2]:
+                for x, c in st[j]['cnt'].items(): tot[x] = tot.get(x, 0) + c
+            st[op[1]] = {'cnt': {}, 'enc': tot, 'lens': {}, 'bits': 0, 'used': {}}
+        return None
+    def oracle(e, ops, obs, mo=None):
+        return ref_oracle(e, ops, obs, [clause], mo)
+    run_regions(ctx, res, cases, oracle, 'full')
+    res.assumptions += ['code lengths <= 57 bits (the u64 encoder register); counts < 2^63']
+    return res
+
+PROPS = {'C01': c01, 'C02': c02, 'C03': c03, 'C04': c04, 'C05': c05, 'C06': c06, 'C07': c07, 'C08': c08, 'C09': c09,
+         'C10': c10, 'C11': c11, 'C12': c12, 'C13': c13, 'C14': c14, 'C15': c15, 'C16': c16, 'C17': c17, 'C18': c18,
+         'C19': c19, 'C20': c20}
